@@ -457,7 +457,58 @@ func corr(e *env, seed uint64, n int) {
 		}
 		emit("G", next(), rt.pre[0], rt.pre[1], rt.pre[2], rt.pre[3], obs)
 	}
+	thirdPartyStruct(e, next)
 	out.Flush()
+}
+
+
+// thirdPartyStruct: DecryptFragment's box surgery on the repository's encrypted files (PIFF uuid-senc, pssh in
+// moof, several fragments): structure before / after for the model.
+func thirdPartyStruct(e *env, next func() string) {
+	for _, c := range thirdPartyCases {
+		f, err := mp4.DecodeFile(bytes.NewReader(readFile(repoDir, c.file)))
+		if err != nil {
+			continue
+		}
+		init := f.Init
+		if init == nil && c.init != "" {
+			fi, err := mp4.DecodeFile(bytes.NewReader(readFile(repoDir, c.init)))
+			must(err)
+			init = fi.Init
+		}
+		key, _ := mp4.UnpackKey(c.key)
+		di, err := mp4.DecryptInit(init)
+		if err != nil {
+			continue
+		}
+		nf := 0
+		for _, sg := range f.Segments {
+			for _, fr := range sg.Fragments {
+				if nf >= 6 || len(fr.Moof.Trafs) != 1 || fr.Moof.Traf.Trun == nil {
+					continue
+				}
+				nf++
+				t := &idTable{m: map[mp4.Box]int{}}
+				pre := [4]string{strconv.FormatUint(fr.Moof.StartPos, 10), moofString(t, fr.Moof),
+					strconv.Itoa(int(fr.Moof.Traf.Trun.DataOffset)), strconv.FormatUint(fr.Mdat.StartPos, 10)}
+				var err error
+				p := hx.Try(func() { err = mp4.DecryptFragment(fr, di, key) })
+				obs := classOf(p, err)
+				if obs == "ok" {
+					obs = fmt.Sprintf("ok:%s|%d|%d", moofString(t, fr.Moof), fr.Moof.Traf.Trun.DataOffset, fr.Mdat.StartPos)
+				}
+				emit("G", next(), pre[0], pre[1], pre[2], pre[3], obs)
+			}
+		}
+	}
+}
+
+var thirdPartyCases = []struct{ init, file, key string }{
+	{"", "mp4/testdata/prog_8s_enc_dashinit.mp4", "63cb5f7184dd4b689a5c5ff11ee6a328"},
+	{"", "mp4/testdata/cbcs.mp4", "22bdb0063805260307ee5045c0f3835a"},
+	{"", "mp4/testdata/cbcs_audio.mp4", "5ffd93861fa776e96cccd934898fc1c8"},
+	{"cmd/mp4ff-decrypt/testdata/PIFF/audio/init.mp4", "cmd/mp4ff-decrypt/testdata/PIFF/audio/segment-1.0001.m4s", "602a9289bfb9b1995b75ac63f123fc86"},
+	{"", "cmd/mp4ff-decrypt/testdata/PIFF/video/complseg-1.0001.mp4", "602a9289bfb9b1995b75ac63f123fc86"},
 }
 
 type rtResult struct {
@@ -592,7 +643,7 @@ func search(e *env, seed uint64, n int, bins string) {
 			fail("mp4.EncryptFragment", "encrypt-"+fr.class, wit, "EncryptFragment does not succeed on a well-formed clear fragment")
 			continue
 		}
-		rt := roundTrip(fr, key, false, func(df *mp4.Fragment) (string, string, string, string) { return "x", "", "", "" })
+		rt := roundTrip(fr, key, r.Intn(4) == 0, func(df *mp4.Fragment) (string, string, string, string) { return "x", "", "", "" })
 		if rt.class != "ok" {
 			fail("mp4.DecryptFragment", "roundtrip-"+rt.class, wit, "encrypt -> encode -> decode -> decrypt does not succeed")
 			continue
@@ -607,6 +658,7 @@ func search(e *env, seed uint64, n int, bins string) {
 		clearRaw, clearF := e.clearFile(codec, fr.trackID, samples, o, r)
 		compareWithClear(wit, "api", clearRaw, clearF, dbuf.Bytes(), samples)
 	}
+	searchFiles(e, r, n/2)
 	if bins != "" {
 		searchBins(e, r, n/10+1, bins)
 	}
@@ -665,6 +717,193 @@ func compareWithClear(wit, via string, clearRaw []byte, clearF *mp4.File, decRaw
 	fail("mp4.DecryptFragment", via+"-bytes-differ", wit, "decrypted file is not byte-identical to the clear file")
 }
 
+
+// ---------------------------------------------------------------- whole files, the way mp4ff-encrypt / mp4ff-decrypt work
+
+type fileOpts struct {
+	nfrags  int
+	styp    bool
+	npssh   int // pssh boxes handed to InitProtect (moov)
+	baseVar int // 0: default-base-is-moof + trun data offset; 1: tfhd base_data_offset = moof start; 2: tfhd base_data_offset = mdat payload, trun without data offset
+}
+
+// buildClearFile: init + one segment with nfrags fragments. Returns the bytes.
+func (e *env) buildClearFile(codec byte, scheme string, fo fileOpts, r *hx.Rng) ([]byte, [][][]byte) {
+	initF, err := mp4.DecodeFile(bytes.NewReader(e.initFor(codec)))
+	must(err)
+	trackID := initF.Init.Moov.Trak.Tkhd.TrackID
+	var buf bytes.Buffer
+	must(initF.Init.Encode(&buf))
+	if fo.styp {
+		styp := mp4.NewStyp("msdh", 0, []string{"msdh", "msix"})
+		must(styp.Encode(&buf))
+	}
+	var all [][][]byte
+	for k := 0; k < fo.nfrags; k++ {
+		ns := r.Pick(1, 2, 3, 5)
+		var samples [][]byte
+		for j := 0; j < ns; j++ {
+			switch {
+			case codec == 'u':
+				samples = append(samples, genAudioSample(r, 0))
+			case scheme == "cbcs":
+				samples = append(samples, frame(genVideoSampleCbcs(e, r, codec, 0)))
+			default:
+				samples = append(samples, frame(genVideoSampleCenc(r, codec, 0)))
+			}
+		}
+		all = append(all, samples)
+		o := fragOpts{extraMoof: r.Pick(0, 0, 1, 2), extraTraf: r.Pick(0, 1, 2), moofBefore: r.Bool()}
+		frag := buildFragment(trackID, samples, o, r)
+		frag.Moof.Mfhd.SequenceNumber = uint32(k + 1)
+		pos := uint64(buf.Len())
+		tfhd := frag.Moof.Traf.Tfhd
+		switch fo.baseVar {
+		case 1:
+			tfhd.Flags = (tfhd.Flags &^ 0x020000) | 0x01
+			tfhd.BaseDataOffset = pos
+		case 2:
+			tfhd.Flags = (tfhd.Flags &^ 0x020000) | 0x01
+			frag.Moof.Traf.Trun.Flags &^= mp4.TrunDataOffsetPresentFlag
+			tfhd.BaseDataOffset = pos + frag.Moof.Size() + 8
+		}
+		must(frag.Encode(&buf))
+	}
+	return buf.Bytes(), all
+}
+
+// fileRoundTrip mirrors cmd/mp4ff-encrypt (DecodeFile, InitProtect, EncryptFragment per fragment, Encode) and
+// cmd/mp4ff-decrypt (DecodeFile, DecryptInit, Init.Encode, DecryptSegment + Encode per segment).
+var lastErr string
+
+func fileRoundTrip(clearRaw []byte, scheme string, key, iv []byte, npssh int) (dec []byte, stage string) {
+	inF, err := mp4.DecodeFile(bytes.NewReader(clearRaw))
+	if err != nil {
+		return nil, "decode-clear"
+	}
+	kid, _ := mp4.NewUUIDFromString(kidHex)
+	var psshs []*mp4.PsshBox
+	for k := 0; k < npssh; k++ {
+		ps, err := mp4.NewPsshBox("edef8ba979d64acea3c827dcd51d21ed", nil, []byte{byte(k), 7})
+		must(err)
+		psshs = append(psshs, ps)
+	}
+	var ipd *mp4.InitProtectData
+	if p := hx.Try(func() { ipd, err = mp4.InitProtect(inF.Init, key, iv, scheme, kid, psshs) }); p != "" || err != nil {
+		return nil, "init-protect-" + classOf(p, err)
+	}
+	for _, s := range inF.Segments {
+		for _, f := range s.Fragments {
+			if p := hx.Try(func() { err = mp4.EncryptFragment(f, key, iv, ipd) }); p != "" || err != nil {
+				return nil, "encrypt-" + classOf(p, err)
+			}
+		}
+	}
+	var eb bytes.Buffer
+	if p := hx.Try(func() { err = inF.Encode(&eb) }); p != "" || err != nil {
+		return nil, "encode-encrypted-" + classOf(p, err)
+	}
+	encF, err := mp4.DecodeFile(bytes.NewReader(eb.Bytes()))
+	if err != nil {
+		return nil, "decode-encrypted"
+	}
+	var di mp4.DecryptInfo
+	if p := hx.Try(func() { di, err = mp4.DecryptInit(encF.Init) }); p != "" || err != nil {
+		return nil, "decrypt-init-" + classOf(p, err)
+	}
+	var db bytes.Buffer
+	if p := hx.Try(func() { err = encF.Init.Encode(&db) }); p != "" || err != nil {
+		return nil, "encode-decrypted-init-" + classOf(p, err)
+	}
+	for _, sg := range encF.Segments {
+		if p := hx.Try(func() { err = mp4.DecryptSegment(sg, di, key) }); p != "" || err != nil {
+			lastErr = fmt.Sprint(p, err)
+			return nil, "decrypt-segment-" + classOf(p, err)
+		}
+		if p := hx.Try(func() { err = sg.Encode(&db) }); p != "" || err != nil {
+			return nil, "encode-decrypted-" + classOf(p, err)
+		}
+	}
+	return db.Bytes(), "ok"
+}
+
+func searchFiles(e *env, r *hx.Rng, n int) {
+	for i := 0; i < n; i++ {
+		codec := byte(r.Pick('a', 'h', 'u'))
+		scheme := []string{"cenc", "cbcs"}[r.Intn(2)]
+		fo := fileOpts{nfrags: r.Pick(1, 2, 3, 4), styp: r.Bool(), npssh: r.Pick(0, 0, 1, 2)}
+		if i%5 == 4 {
+			fo.baseVar = r.Pick(1, 2)
+		}
+		clearRaw, samples := e.buildClearFile(codec, scheme, fo, r)
+		iv := genIV(r, r.Pick(8, 16))
+		key := r.Bytes(16, nil)
+		evals++
+		wit := fmt.Sprintf("file codec=%c scheme=%s key=%s iv=%s opts=%+v clear=%s", codec, scheme, hx.Hex(key), hx.Hex(iv), fo, hx.Hex(clearRaw))
+		// sanity: the clear file decodes and its samples are the generated ones (otherwise the generator is wrong)
+		cf, err := mp4.DecodeFile(bytes.NewReader(clearRaw))
+		if err != nil || len(cf.Segments) != 1 || len(cf.Segments[0].Fragments) != fo.nfrags {
+			must(fmt.Errorf("generated clear file does not decode: %v", err))
+		}
+		for k, fr := range cf.Segments[0].Fragments {
+			fss, err := fr.GetFullSamples(nil)
+			if err != nil || len(fss) != len(samples[k]) {
+				must(fmt.Errorf("generated clear file: fragment %d samples unreadable (%v)", k, err))
+			}
+			for j := range fss {
+				if !bytes.Equal(fss[j].Data, samples[k][j]) {
+					must(fmt.Errorf("generated clear file: fragment %d sample %d misplaced (baseVar %d)", k, j, fo.baseVar))
+				}
+			}
+		}
+		decRaw, stage := fileRoundTrip(clearRaw, scheme, key, iv, fo.npssh)
+		cls := "file"
+		if fo.baseVar != 0 {
+			cls = "file-tfhd-base-data-offset"
+		}
+		if stage != "ok" {
+			if fo.baseVar != 0 {
+				fail("mp4.EncryptFragment+DecryptSegment", cls, wit, "clear file with an absolute tfhd base_data_offset: encrypt -> encode -> decode -> decrypt stops at "+stage+" ("+lastErr+")")
+			} else {
+				fail("mp4.EncryptFragment+DecryptSegment", cls+"-"+stage, wit, "clear file -> encrypt -> encode -> decode -> decrypt does not succeed: "+lastErr)
+			}
+			continue
+		}
+		if !bytes.Equal(decRaw, clearRaw) {
+			// which clause?
+			df, err := mp4.DecodeFile(bytes.NewReader(decRaw))
+			desc := "decrypted file is not byte-identical to the clear file"
+			if err != nil {
+				desc = "decrypted file does not decode"
+			} else if len(df.Segments) == 1 && len(df.Segments[0].Fragments) == fo.nfrags {
+				for k, fr := range df.Segments[0].Fragments {
+					fss, err := fr.GetFullSamples(nil)
+					if err != nil || len(fss) != len(samples[k]) {
+						desc = fmt.Sprintf("fragment %d: samples unreadable after decrypt", k)
+						break
+					}
+					bad := false
+					for j := range fss {
+						if !bytes.Equal(fss[j].Data, samples[k][j]) {
+							desc = fmt.Sprintf("fragment %d sample %d not restored", k, j)
+							bad = true
+							break
+						}
+					}
+					if bad {
+						break
+					}
+				}
+			}
+			if fo.baseVar != 0 {
+				fail("mp4.EncryptFragment+DecryptSegment", cls, wit, desc)
+			} else {
+				fail("mp4.EncryptFragment+DecryptSegment", cls+"-differs", wit, desc)
+			}
+		}
+	}
+}
+
 // searchBins: the same round trip through the built mp4ff-encrypt / mp4ff-decrypt binaries.
 func searchBins(e *env, r *hx.Rng, n int, bins string) {
 	tmp, err := os.MkdirTemp("", "c06-bins-")
@@ -720,13 +959,7 @@ func searchBins(e *env, r *hx.Rng, n int, bins string) {
 // thirdParty: encrypted files of the repository: decryption keeps sample count, sizes and timing, and the
 // decrypted file decodes with all samples in place.
 func thirdParty(e *env) {
-	cases := []struct{ init, file, key string }{
-		{"", "mp4/testdata/prog_8s_enc_dashinit.mp4", "63cb5f7184dd4b689a5c5ff11ee6a328"},
-		{"", "mp4/testdata/cbcs.mp4", "22bdb0063805260307ee5045c0f3835a"},
-		{"", "mp4/testdata/cbcs_audio.mp4", "5ffd93861fa776e96cccd934898fc1c8"},
-		{"cmd/mp4ff-decrypt/testdata/PIFF/audio/init.mp4", "cmd/mp4ff-decrypt/testdata/PIFF/audio/segment-1.0001.m4s", "602a9289bfb9b1995b75ac63f123fc86"},
-		{"", "cmd/mp4ff-decrypt/testdata/PIFF/video/complseg-1.0001.mp4", "602a9289bfb9b1995b75ac63f123fc86"},
-	}
+	cases := thirdPartyCases
 	for _, c := range cases {
 		evals++
 		wit := c.file
